@@ -38,6 +38,7 @@ const (
 	evYield = iota
 	evOpDone
 	evDone
+	evBlocked // the task found a lock taken (cooperative Lock, see cmd/instrument)
 )
 
 // Task is one simulated caller.
@@ -52,6 +53,9 @@ type Task struct {
 	done    bool
 	started bool
 	prio    int
+	// blockedAt is the value of Sched.progress when the task last found a
+	// lock taken; it is not scheduled again before somebody else has run.
+	blockedAt int64
 }
 
 // SchedCfg is drawn from the tape per run (swarm style).
@@ -92,6 +96,9 @@ type Sched struct {
 	changeAt   []uint64
 	rrNext     int
 	Watchdog   time.Duration
+	progress   int64 // hand-offs that were not "lock taken"
+	LockWaits  int   // times a task found a lock taken and was descheduled
+	allBlocked int
 }
 
 // NewSched creates a scheduler; nSites sizes the coverage table.
@@ -143,6 +150,31 @@ func (s *Sched) Yield(site uint32) {
 	}
 	s.lastSite = site
 	s.handoff(t, evYield)
+}
+
+// Blocked is the hook of the cooperative Lock: the current task found the
+// lock taken.  It always hands control back; the scheduler will not pick
+// this task again before some other task has run.
+//
+//go:norace
+//go:noinline
+func (s *Sched) Blocked(site uint32) {
+	if atomic.LoadUint32(&s.free) != 0 {
+		runtime.Gosched()
+		return
+	}
+	t := s.cur
+	if t == nil {
+		runtime.Gosched()
+		return
+	}
+	s.Steps++
+	t.Steps++
+	if int(site) < len(s.SiteHits) {
+		s.SiteHits[site]++
+	}
+	s.lastSite = site
+	s.handoff(t, evBlocked)
 }
 
 //go:norace
@@ -201,14 +233,23 @@ func (s *Sched) taskBody(t *Task) {
 	s.wg.Done() // a real happens-before edge: task exit -> result inspection
 }
 
-func (s *Sched) runnable() []*Task {
-	var out []*Task
+// runnable returns the live tasks that are not waiting for a lock; if every
+// live task is waiting, ok is false and all live tasks are returned.
+func (s *Sched) runnable() (out []*Task, ok bool) {
+	var live []*Task
 	for _, t := range s.Tasks {
-		if !t.done {
+		if t.done {
+			continue
+		}
+		live = append(live, t)
+		if t.blockedAt <= s.progress {
 			out = append(out, t)
 		}
 	}
-	return out
+	if len(out) == 0 {
+		return live, false
+	}
+	return out, true
 }
 
 func (s *Sched) pick(live []*Task) *Task {
@@ -224,11 +265,14 @@ func (s *Sched) pick(live []*Task) *Task {
 	case PolRR:
 		for i := 0; i < len(s.Tasks); i++ {
 			t := s.Tasks[(s.rrNext+i)%len(s.Tasks)]
-			if !t.done {
-				s.rrNext = (t.ID + 1) % len(s.Tasks)
-				return t
+			for _, l := range live {
+				if l == t {
+					s.rrNext = (t.ID + 1) % len(s.Tasks)
+					return t
+				}
 			}
 		}
+		return live[0]
 	case PolStall:
 		var others []*Task
 		for _, t := range live {
@@ -300,7 +344,20 @@ func (s *Sched) Run() {
 	var prevSite uint32
 	lowPrio := 0
 	for live > 0 {
-		rl := s.runnable()
+		rl, ok := s.runnable()
+		if !ok {
+			// every live task waits for a lock: either a lock-order deadlock
+			// among the tasks, or the holder is not a simulation task.  Give
+			// real time a chance, then fall back (which ends in the deadlock
+			// verdict if nobody ever finishes).
+			s.allBlocked++
+			if s.allBlocked > 2000 {
+				s.freeRunFallback(live)
+				return
+			}
+			time.Sleep(time.Millisecond)
+			s.progress++
+		}
 		next := s.pick(rl)
 		s.countdown = s.quantum()
 		if s.Cfg.GCEvery > 0 && s.T.Choose("sched", "gc", s.Cfg.GCEvery) == 0 && s.GCs < 16 {
@@ -342,6 +399,13 @@ func (s *Sched) Run() {
 			s.Pairs[uint64(prevSite)<<32|uint64(s.lastSite)] = struct{}{}
 			prevSite = s.lastSite
 		}
+		if ev == evBlocked {
+			next.blockedAt = s.progress + 1
+			s.LockWaits++
+		} else {
+			s.progress++
+			s.allBlocked = 0
+		}
 		switch ev {
 		case evDone:
 			live--
@@ -375,7 +439,7 @@ func (s *Sched) freeRunFallback(live int) {
 		default:
 		}
 	}
-	deadline := time.After(60 * time.Second)
+	deadline := time.After(20 * time.Second)
 	// the task that timed out may still deliver its pending event
 	doneCh := make(chan struct{})
 	go func() { s.wg.Wait(); close(doneCh) }()
